@@ -1029,3 +1029,16 @@ mod tests {
         assert_ne!(cred_with_backup.uuid, cred_removed_backup.uuid);
     }
 }
+
+/// Verification hook (add-only, behaviour-neutral): build a credential of an arbitrary
+/// shape so that an external harness can call `softlock_policy()` on every shape.
+#[cfg(feature = "verif-hooks")]
+impl Credential {
+    pub fn verif_from_type(type_: CredentialType) -> Self {
+        Credential {
+            type_,
+            uuid: Uuid::new_v4(),
+            timestamp: OffsetDateTime::UNIX_EPOCH,
+        }
+    }
+}
